@@ -418,6 +418,18 @@ def fam_c09(R, n):
     for w, pr in [('abc', 1), ('é', 9), ('k', 0)]:
         out.append(dict(family='c09-explicit', src=enum([], ['#[token(%s, priority = %d)] A,' % (rust_str(w), pr)]), meta=dict(leaf=0, explicit=pr)))
         out.append(dict(family='c09-explicit', src=enum([], ['#[token(%s, priority = %d, ignore(case))] A,' % (rust_str(w), pr + 3)]), meta=dict(leaf=0, explicit=pr + 3)))
+    # ... whatever its value: every number some rule could take for "the default" or for "unset" (0, 1, twice the length in
+    # characters, twice the length in bytes, the lengths themselves, their neighbours), on literals with characters of every width
+    for w in ['é', '→→', 'a中', '😀', 'ab', 'ǆk']:
+        nb, nc = len(w.encode('utf-8')), len(w)
+        for pr in sorted({0, 1, 2, nc, nb, 2 * nc, 2 * nb, 2 * nc + 1, 2 * nb - 1, 2 * nb + 1, nc + nb}):
+            out.append(dict(family='c09-explicit', src=enum([], ['#[token(%s, priority = %d)] A,' % (rust_str(w), pr)]), meta=dict(leaf=0, explicit=pr)))
+            out.append(dict(family='c09-explicit', src=enum([], ['#[token(%s, priority = %d, ignore(case))] A,' % (rust_str(w), pr)]), meta=dict(leaf=0, explicit=pr)))
+            out.append(dict(family='c09-explicit', src=enum([], ['#[regex(%s, priority = %d)] A,' % (rust_str(w), pr)]), meta=dict(leaf=0, explicit=pr)))
+            out.append(dict(family='c09-explicit', src=enum(['#[logos(skip(%s, priority = %d))]' % (rust_str(w), pr)], ['#[token("zzzz")] Z,']), meta=dict(leaf=0, explicit=pr)))
+        wb = w.encode('utf-8')
+        for pr in sorted({2 * nc, 2 * nb, nb}):
+            out.append(dict(family='c09-explicit', src=enum(['#[logos(utf8 = false)]'], ['#[token(%s, priority = %d)] A,' % (rust_bytes(wb), pr)]), meta=dict(leaf=0, explicit=pr)))
     # several skips on one enum, each with its own default priority (plain, group form, with a callback), next to regexes
     for skips in [['[ \\t]+', '///[a-z ]*'], ['#', '--[a-z]*', '[ ]'], ['a', 'bb', 'ccc', 'dddd'], ['é+', '/[*][^*]*[*]/']]:
         for form in ('bare', 'group', 'mixed'):
@@ -876,6 +888,17 @@ def fam_c19(R, n_random):
         'type item referring to another, acyclic (resource exhaustion)')
     for p in ['(?&nope)', 'a(?&b)']:
         add(enum([], ['#[regex(%s)] A,' % rust_str(p)]), 'reject', 'undef_subpattern')
+    # operators made of the characters the argument splitter looks at (`<`, `>`, `=`, `-`, `|`, `,`), outside any group: comparisons,
+    # shifts, arrows, turbofish, generic types as values - valid definitions, to be accepted and to compile
+    for cbk in ['|lex| lex.slice().len() > 3', '|lex| lex.slice().len() >= 3', '|lex| lex.slice().len() >> 1 == 0', '|lex| 3 < lex.slice().len()',
+                '|lex| 1 < 2 && lex.slice().len() > 2', '|lex| lex.slice().len() as i64 - 1 > -1', '|lex| lex.slice().parse::<u8>().is_ok()',
+                '|lex| lex.slice().len() <= 3 || lex.slice().len() >= 7', '|lex| !lex.slice().is_empty() == true', '|lex| lex.slice().len() << 1 > 2',
+                '|lex| (|a: usize, b: usize| a > b)(lex.slice().len(), 2)']:
+        add(enum([], ['#[regex("[0-9]+", %s)] A,' % cbk, '#[token("b", callback = %s, priority = 9)] B,' % cbk]), 'accept', None, 'operators outside groups in a callback')
+    add(enum(['#[logos(extras = Vec<u8>)]'], ['#[token("a")] A,']), 'accept', None, 'generic type as a value')
+    add(enum(['#[logos(extras = Option<Box<u8>>, skip " ")]'], ['#[token("a")] A,']), 'accept', None, 'nested generic type as a value (`>>`)')
+    add(enum(['#[logos(error = Option<u8>)]'], ['#[token("a")] A,']), 'accept', None, 'generic type as a value')
+    add(enum(["#[logos(extras = fn(u8) -> u8)]"], ['#[token("a")] A,']), 'any', None, 'arrow in a value')
     # an argument left empty (a stray comma): a diagnostic, never an implementation made of the stray tokens
     for a in ['#[token("a",,)]', '#[regex("x", , priority = 3)]', '#[regex("x", priority = 3, , )]', '#[token("a", , )]', '#[regex("x", |_| (), , priority = 3)]',
               '#[regex("x", priority = 3,, callback = |_| ())]']:
